@@ -1,9 +1,9 @@
 package main
 
 import (
-	"strings"
 	"fmt"
 	"math/big"
+	"strings"
 
 	"github.com/tjfoc/gmsm/sm2"
 )
